@@ -25,6 +25,7 @@ type Track struct {
 	Callee string // name of a parameter / free variable / function as written
 	Alias  string
 	When   Expr // optional filter over the call's arguments ($0, $1, ...)
+	Inline bool // 'track f as x inline': the call is logged but the callee is still inlined (not kept opaque)
 }
 
 // Contract is the specification of one function (or of one library function, when Trusted).
@@ -669,6 +670,10 @@ func (db *SpecDB) LoadSpecFile(path, pkgPath string) error {
 				}
 				fs := strings.Fields(rest)
 				tr := Track{Callee: fs[0], Alias: fs[0], When: when}
+				if len(fs) >= 2 && fs[len(fs)-1] == "inline" {
+					tr.Inline = true
+					fs = fs[:len(fs)-1]
+				}
 				if len(fs) == 3 && fs[1] == "as" {
 					tr.Alias = fs[2]
 				}
